@@ -24,15 +24,22 @@ CONSTANTS Roots,      \* absolute locations of a copy of the sources
           Orders,     \* "asc" / "desc": order of the comma separated generator options
           Envs,       \* "plain" / "other": HOME, TZ, LANG, GOMAXPROCS, umask
           MaxRep      \* repetitions of one and the same invocation
-VARIABLES c, out
-vars == <<c, out>>
+VARIABLES c, out,
+          earlier     \* what the process that runs this invocation compiled before it: the CLI compiles its file arguments one after
+                      \* the other in one process and embedding programs call compiler.Compile repeatedly; <<>> = a process of its own
+vars == <<c, out, earlier>>
+Targets == {"go", "java", "dart", "py", "json", "html"}
 Gen == "Gen[prog, opts]"       \* the abstract compiler: one value, whatever the circumstances
 Cfg == [root : Roots, cwd : Cwds, spell : Spells, o : Outs, pre : Pres, order : Orders, env : Envs, rep : 1..MaxRep]
 \* from an unrelated working directory there is no short detour to spell
 Sensible(x) == x.cwd = "far" => x.spell # "dot"
 Init == /\ c \in {x \in Cfg : x.rep = 1 /\ x.root = "r1" /\ x.cwd = "src" /\ x.spell = "rel" /\ x.o = "rel" /\ x.pre = "fresh" /\ x.order = "asc" /\ x.env = "plain"}
-        /\ out = Gen
-Compile(x) == Sensible(x) /\ c' = x /\ out' = Gen
+        /\ out = Gen /\ earlier = <<>>
+Compile(x) == Sensible(x) /\ c' = x /\ out' = Gen /\ UNCHANGED earlier
+\* the same sources were compiled for target t earlier in this process: no trace of that may reach the output (the parse tree a
+\* generator edited, caches keyed by path, package-level state).  The drivers run, in the initial circumstance, every target
+\* after every other one (all targets forwards, then backwards, and java first) in one process.
+SameProcess == Len(earlier) < 2 /\ \E t \in Targets : earlier' = Append(earlier, t) /\ out' = Gen /\ UNCHANGED c
 MoveSources == \E r \in Roots : Compile([c EXCEPT !.root = r])
 ChangeDir == \E d \in Cwds : Compile([c EXCEPT !.cwd = d])
 Respell == \E s \in Spells : Compile([c EXCEPT !.spell = s])
@@ -42,6 +49,7 @@ Reorder == \E o \in Orders : Compile([c EXCEPT !.order = o])
 ChangeEnv == \E e \in Envs : Compile([c EXCEPT !.env = e])
 Repeat == c.rep < MaxRep /\ Compile([c EXCEPT !.rep = @ + 1])
 Next == MoveSources \/ ChangeDir \/ Respell \/ Redirect \/ Regenerate \/ Reorder \/ ChangeEnv \/ Repeat
+        \/ (c.rep = 1 /\ c.root = "r1" /\ c.cwd = "src" /\ c.spell = "rel" /\ c.o = "rel" /\ c.pre = "fresh" /\ c.order = "asc" /\ c.env = "plain" /\ SameProcess)
 Spec == Init /\ [][Next]_vars
 \* the property: the output is a function of program and options alone
 Functional == out = Gen
